@@ -223,6 +223,22 @@ def case_incidence(ctx, cfg):
         j = None if e3 is not None or r1.shape != exact.shape else tuple(int(x) for x in np.argwhere(r1 != exact)[0])
         ctx.fail(f"{what}:contains-after-transformation", "(t*S).contains(t*x)", {**inputs, "position": j}, "exact incidence", e3 if e3 is not None else "mismatch")
         return
+    # a TransformationCollection that mixes affine and genuinely projective members, applied to hyperplanes and points
+    if g == "proj" and what in ("2d:line-point", "3d:plane-point"):
+        names = ["shear", "proj", "trans", "proj2", "det2", "rot345"]
+        Ms = [XF.gen_matrix(dim, nm) for nm in names]
+        tcm = G.TransformationCollection(np.stack([XF.mat_np(Mm) for Mm in Ms]))
+        for i in range(0, ns, max(1, ns // 8)):
+            tSi, e = ctx.call(lambda: tcm * S[i])
+            if e is not None:
+                ctx.fail(f"{what}:mixed-affine-projective-collection:{type(e).__name__}", "tc*S", {**inputs, "hyperplane": H[i]}, "hyperplanes", e)
+                return
+            arr = np.asarray(tSi.array)
+            for k_, Mm in enumerate(Ms):
+                wantk = np.array([float(x) for x in X.matvec(X.transpose(X.inv(Mm)), [F(int(x)) for x in H[i]])])
+                if not proj_eq(arr[k_], wantk, 1e-9):
+                    ctx.fail(f"{what}:mixed-affine-projective-collection:value", "tc*S", {**inputs, "hyperplane": H[i], "member": names[k_]}, wantk, arr[k_])
+                    return
     # a TransformationCollection of 70 similarities around the same scale (the kernels switch algorithm at 64 matrices),
     # applied to one hyperplane and to some of its points and non-points
     if g in SCALE_GENS and what in ("2d:line-point", "3d:plane-point"):
